@@ -12,6 +12,7 @@ type nsState struct {
 	log       [][4]uint64
 	pcommit   uint64
 	snaps     [][4]uint64
+	snapCfgs  [][]srv
 }
 
 func parseState(st []uint64) *nsState {
@@ -39,6 +40,9 @@ func parseState(st []uint64) *nsState {
 	for i := 0; i < n; i++ {
 		s.snaps = append(s.snaps, [4]uint64{st[p], st[p+1], st[p+2], st[p+3]})
 		p += 4
+		var cfg []srv
+		cfg, p = decSrvs(st, p)
+		s.snapCfgs = append(s.snapCfgs, cfg)
 	}
 	s.rest = st[p:]
 	return s
